@@ -3,6 +3,7 @@
 mod envcheck;
 mod crashx;
 mod envx;
+mod formats;
 mod graphx;
 mod hdlc;
 mod maps;
@@ -38,6 +39,7 @@ fn main() {
             "hdlc" => hdlc::replay_json(&v["replay"]),
             "crashx" => crashx::replay_json(&v["replay"]),
             "maps" => maps::replay_json(&v["replay"]),
+            "formats" => formats::replay_json(&v["replay"]),
             e => Err(format!("unknown engine {e:?}")),
         };
         match r {
@@ -65,6 +67,7 @@ fn main() {
         "hdlc" => hdlc::run(tier, shard),
         "crash" => crashx::run(tier, shard),
         "maps" => maps::run(tier, shard),
+        "formats" => formats::run(tier, shard),
         _ => usage(),
     };
     rep.emit();
